@@ -506,6 +506,23 @@ def registration_records(repo):
     return recs
 
 
+
+def double_visit_records(repo):
+    """A child the visit method hands to the visitor twice on one path: whatever it registers (scopes, bindings, regions) is
+    registered twice.  -> {cls: {'twice': [(variant, child path)], 'n': visits checked, 'line'}}"""
+    recs = {}
+    for cls, summs in summaries(repo).items():
+        for s in summs:
+            for ps in ok_paths(s):
+                rec = recs.setdefault(cls, {'twice': [], 'n': 0, 'line': method_line(repo, cls)})
+                seen = set()
+                for path, _r, _l in ps.visits:
+                    rec['n'] += 1
+                    if path in seen and (s.variant, path) not in rec['twice']:
+                        rec['twice'].append((s.variant, path))
+                    seen.add(path)
+    return recs
+
 def statement_order_records(repo):
     """Statement leaves must be visited in source order: what the visitor records in visiting order (attribute assignments,
     the order of regions) is reported in that order.  -> {cls: {'bad': [(variant, earlier, later)], 'n', 'line'}}"""
